@@ -1578,6 +1578,7 @@ PARTIAL = [
     "handshake states are not modelled beyond the flag `normal` (publish functions skip such clients; the handler model `feed` is for NORMAL connections only)",
     "write failures are modelled for a peer that is gone (every write fails: field peerGone, ops kill/senddie; op stall = a peer that stopped reading behind a tiny pipe, used only with large messages); arbitrary partial writes, allocation failures, compress()/inflateInit failures are not modelled (not reachable without fault injection)",
     "SetEncodings is modelled only in its effect on the clipboard state; other message types are outside the model ('unmodelled')",
+    "transports: the WebSocket transport is treated as transparent (rawws peers share the model of plain peers; framing/base64 are exercised, not modelled - C09 owns the decoder)",
     "segmentation: the model consumes the concatenated stream; independence from segmentation is exercised (interposed read(): every 1-cut split of a six-message stream on either library, random 1-3 cuts elsewhere, each cut followed by one EAGAIN) but is a property of rfbReadExact/ReadFromRFBServer, not proved here",
 ]
 ASSUMPTIONS = [
